@@ -896,7 +896,15 @@ func describe(ev tcell.Event) (string, string) {
 
 func (sc *scenario) record(ev tcell.Event) {
 	now := time.Now()
-	d, typ := describe(ev)
+	d, typ := func() (d, typ string) {
+		defer func() { // a typed nil (a non-nil Event whose pointer is nil) blows up in its own accessors
+			if p := recover(); p != nil {
+				d, typ = fmt.Sprintf("!%T", ev), fmt.Sprintf("%T", ev)
+				sc.find("when-nil:"+typ, "a delivered event is not a complete Event: %T whose accessors panic (%v)", ev, p)
+			}
+		}()
+		return describe(ev)
+	}()
 	rec := delivered{desc: d, typ: typ, at: now}
 	func() {
 		defer func() {
